@@ -1,6 +1,6 @@
 (* C09 — Cancellation takes effect up to the last moment. *)
 Require Import NX.Base.Prelude NX.Base.ListX NX.Model.PQ NX.Model.Sim.
-Require Import NX.Proofs.SimBasic NX.Proofs.SimQueue NX.Proofs.SimSched.
+Require Import NX.Proofs.SimBasic NX.Proofs.SimQueue NX.Proofs.SimSched NX.Proofs.SimTerm NX.Proofs.SimComplete.
 
 (* Queue-side check: every action that the critical section of a step turns
    into a task had a key that was not cancelled when the step pulled it (any
@@ -53,6 +53,18 @@ Theorem c09_cancel_only_its_key :
     (forall i, k = Some i -> i < length (cancelled s) -> key_cancelled s' k = true).
 Proof. exact cancel_key_spec. Qed.
 Print Assumptions c09_cancel_only_its_key.
+
+(* Other actions are unaffected by a cancellation, and a live action due now is
+   never lost: an entry leaves the queue during a step only if ITS key is
+   cancelled or it is fired. *)
+Theorem c09_others_unaffected :
+  forall fuel s q bound cur group groups q' gs,
+    pq_wf q -> q_from q (fst cur) -> (exists a0, pq_peek q = Some (cur, a0)) ->
+    crit fuel s q bound cur group groups = Some (q', gs) ->
+    forall y, In y (items q) ->
+      In y (items q') \/ key_cancelled s (akey (ival y)) = true \/ In (aop (ival y)) (concat gs).
+Proof. exact crit_complete. Qed.
+Print Assumptions c09_others_unaffected.
 
 (* non-vacuity: cancel before the step, cancel by an earlier same-time event of
    the same model (slot 0 of the model), cancel after firing, periodic stops *)
